@@ -2,7 +2,7 @@
    Property theorems only: each is closed by `exact` of a lemma proved in C07/Proofs.v.
    `e` selects the variant of supla_esp_countdown_timer_countdown (false: unchanged tree, true: proposed repair
    docs/fixes/C07_rearm_starvation.diff); the correspondence run uses the variant found in the tree. *)
-From Coq Require Import List ZArith.
+From Coq Require Import List ZArith Bool.
 Import ListNotations.
 From V Require Import Base.Bytes Gen.RelayConsts C07.Model C07.Proofs.
 Local Open Scope Z_scope.
@@ -34,6 +34,78 @@ Theorem C07_at_most_once : forall e c evs,
   NoDup (fins (outs (run_from e c (start e c) evs))).
 Proof. intros e c evs W Wev N. exact (at_most_once_thm e c W evs Wev N). Qed.
 Print Assumptions C07_at_most_once.
+
+(* On time (the code with the repair docs/fixes/C07_rearm_starvation.diff, e = true): every switch-back is evaluated
+   less than dur + 50 ms (one minimum period) + S + 16 relay operations after it was armed, where S bounds how late
+   the evaluations of the slot table started after the due time of the shared timer (H_slack: jitter of the callback
+   plus busy-waits that delayed it).  For a lone timer the 16 relay operations do not occur; see
+   C07_on_time_busy_wait_refuted for why they cannot be dropped in general. *)
+Theorem C07_fires_on_time : forall c evs S,
+  wf_cfg c -> Forall wf_ev evs -> NWrun true c (start true c) evs -> 0 <= S ->
+  Slack S (outs (run_from true c (start true c) evs)) ->
+  forall tcb ch tg t0 dur u0 u, In (GFinish tcb ch tg t0 dur u0 u) (run true c evs) ->
+    tcb < t0 + dur * 1000 + CD_MIN * 1000 + S + 2 * (8 * OP).
+Proof. intros c evs S W Wev N HS SL. exact (on_time_thm c W evs Wev N S HS SL). Qed.
+Print Assumptions C07_fires_on_time.
+
+(* It does fire (e = true): a slot still running after an advance that reached time now+dt was armed less than
+   dur + 50 ms + 8 relay operations before that time; so after an advance beyond that deadline the slot has left the
+   table (by its switch-back, or by a command on its channel / a restart). *)
+Theorem C07_fires_by : forall c S s dt,
+  wf_cfg c -> 0 <= dt -> Good s -> J true S s -> 0 <= S ->
+  let s' := advance true c dt s in
+  NW s' -> Slack S (outs s') -> ~ In OFuel (outs s') ->
+  forall x, In x (slots s') -> active x = true -> now s + dt < g_t0 x + g_dur x * 1000 + CD_MIN * 1000 + 8 * OP.
+Proof. exact fires_by_thm. Qed.
+Print Assumptions C07_fires_by.
+
+(* Cancel: after a command (server set-value or local switch) on channel ch handled at time t1, every switch-back of
+   that channel that appears later in the trace belongs to a timer armed at or after t1: the old one never fires. *)
+Theorem C07_cancel : forall e c pre x post ch,
+  wf_cfg c -> Forall wf_ev (pre ++ x :: post) -> NWrun e c (start e c) (pre ++ x :: post) -> cmd_on c x ch ->
+  let s1 := run_from e c (start e c) pre in
+  let s2 := step e c s1 x in
+  forall tcb tg t0 dur u0 u, In (GFinish tcb ch tg t0 dur u0 u) (outs (run_from e c (start e c) (pre ++ x :: post))) ->
+    In (GFinish tcb ch tg t0 dur u0 u) (outs s2) \/ now s1 <= t0.
+Proof. exact cancel_thm. Qed.
+Print Assumptions C07_cancel.
+
+(* Remaining time: an event that is neither a command on channel ch nor a restart never increases the remaining time
+   published for ch (TTimerState.RemainingTimeMs as supla_esp_countdown_get_state computes it). *)
+Theorem C07_remaining_monotone : forall e c s x ch,
+  wf_cfg c -> wf_ev x -> Good s -> NW (step e c s x) -> 0 <= ch < 255 -> ~ ev_chan c x ch ->
+  rem (step e c s x) ch <= rem s ch.
+Proof. exact remaining_monotone_thm. Qed.
+Print Assumptions C07_remaining_monotone.
+
+(* Restart (one relay of the restore loop of supla_esp_gpio_init): the relay comes back at its saved level
+   (honouring active-low wiring) and the saved remaining time is armed again with the opposite target; it is then an
+   ordinary timer to which all theorems above apply.  The second part needs the channel's countdown capability to be
+   known at that moment when the saved level is "off": see C07_restore_needs_flags_refuted. *)
+Theorem C07_restart_restores : forall e c s a r,
+  wf_cfg c -> Good s -> In r (c_relays c) ->
+  find_chan (c_relays c) 0 (r_chan r) = Some (a, r) -> find_gpio (c_relays c) 0 (r_gpio r) = Some (a, r) ->
+  hasf (r_flags r) FLAG_RESTORE_FORCE || hasf (r_flags r) FLAG_RESTORE = true ->
+  let v := getz (ram_relay s) a in
+  let T := getz (ram_t2 s) (r_chan r) in
+  let s' := restore_relay e c s (a, r) in
+  v = 0 \/ v = 1 -> NW s' ->
+  pin s' (r_gpio r) = xorb (v =? 1) (hasf (r_flags r) FLAG_LO_LEVEL) /\
+  (0 < T < 2147483648 -> (exists x, In x (slots s) /\ s_chan x = 255) ->
+   v = 1 \/ (getz (time2 s) (r_chan r) = 0 /\ hasf (getz (chfl s) a) CHFLAG_COUNTDOWN = true) ->
+   In (GArm (now s) (r_chan r) T (1 - v)) (outs s')).
+Proof. exact restore_one_thm. Qed.
+Print Assumptions C07_restart_restores.
+
+(* The hypotheses of the theorems above are satisfiable: concrete boards and histories meeting them. *)
+Example C07_hypotheses_satisfiable :
+  wf_cfg storm_cfg /\ Forall wf_ev early_evs /\ NWrun true storm_cfg (start true storm_cfg) early_evs /\
+  Slack 0 (outs (run_from true storm_cfg (start true storm_cfg) early_evs)) /\
+  wf_cfg serial_cfg /\ Forall wf_ev serial_evs /\ NWrun true serial_cfg (start true serial_cfg) serial_evs /\
+  Slack 30160 (outs (run_from true serial_cfg (start true serial_cfg) serial_evs)) /\
+  wf_cfg (late_cfg false) /\ Forall wf_ev late_evs /\ NWrun false (late_cfg false) (start false (late_cfg false)) late_evs.
+Proof. exact hypotheses_satisfiable_thm. Qed.
+Print Assumptions C07_hypotheses_satisfiable.
 
 (* Refutations (witnesses computed by the kernel; the same inputs are in corpus/C07 and fail on the real code). *)
 Theorem C07_old_code_refuted :
